@@ -3,6 +3,7 @@ pub mod bds;
 pub mod country;
 pub mod cpr;
 pub mod fields;
+pub mod render;
 pub mod sem;
 
 pub fn self_test() -> Result<(), String> {
